@@ -287,6 +287,8 @@ def build(run):
     b = 200 if run.tier == "quick" else 2000
     run.bounded("exporter.FllExporter+importer.FllImporter/round_trip.runtime", N_, "replay_fll_roundtrip", [dict(seed=run.seed, budget=b)],
                 bound=f"every registered term/norm/defuzzifier/activation/hedge on its own at decimals 1..9; {b} generated engines forming a covering array (every class, flags both ways, descriptions, infinite ranges, NaN defaults, non-unit heights and weights) at two decimals settings each: text fixed point, structural equality, exact outputs under the representability hypothesis; 61 shipped examples verbatim and reformatted + hand-written texts: one import/export cycle is a fixed point")
+    run.bounded("importer.FllImporter/empty_components_survive.runtime", "contracts.fll_edge_native", "replay_fll_empty_components", [dict(seed=run.seed)],
+                bound="engines with a term-less input variable, a term-less output variable, an empty rule block and a disabled bare rule block (with and without descriptions): no component is lost and the text is a fixed point")
 
 
 if __name__ == "__main__":
